@@ -11,16 +11,27 @@ fn unhex(s: &str) -> Vec<u8> {
 }
 
 fn run<A: Automaton>(aut: &A, hay: &[u8], s: usize, e: usize, an: bool, is_dfa: bool) -> i32 {
+    let args: Vec<String> = std::env::args().collect();
+    let ov = args.get(11).map_or(false, |v| v == "1");
+    let pfcode: usize = args.get(12).and_then(|v| v.parse().ok()).unwrap_or(0);
     aho_corasick::verif::count::reset();
     memchr::model_scanned_reset();
     let a = if an { Anchored::Yes } else { Anchored::No };
-    let _ = aut.try_find(&Input::new(hay).span(s..e).anchored(a));
+    if ov {
+        let mut st = aho_corasick::automaton::OverlappingState::start();
+        let _ = aut.try_find_overlapping(&Input::new(hay).span(s..e), &mut st);
+    } else {
+        let _ = aut.try_find(&Input::new(hay).span(s..e).anchored(a));
+    }
     let (tr, fl, nonmono) = aho_corasick::verif::count::read();
     let (same_start_run, decreases) = memchr::model_scan_order();
     let (lo, hi) = memchr::model_scan_range();
     let base = hay.as_ptr() as usize;
     let outside = lo != 0 && (lo < base + s || hi > base + e);
-    let bad = tr > e - s || nonmono != 0 || fl > tr || (is_dfa && fl != 0) || decreases != 0 || same_start_run > 2 || outside;
+    let scanned = memchr::model_scanned();
+    let rescanned = (1..=3).contains(&pfcode) && scanned > 2 * (e - s) + 2;
+    println!("prefilter examined {} byte(s) of a span of {} ({})", scanned, e - s, if ov { "one overlapping step" } else { "find" });
+    let bad = tr > e - s || nonmono != 0 || fl > tr || (is_dfa && fl != 0) || decreases != 0 || same_start_run > 2 || outside || rescanned;
     println!(
         "work: transitions={} (span {}), failure links={}, non-monotone steps={}, prefilter scans from one offset in a row={}, scans starting earlier than their predecessor={}, prefilter scanned offsets {}..{} of span {}..{} -> {}",
         tr, e - s, fl, nonmono, same_start_run, decreases,
